@@ -21,13 +21,8 @@ use tokio_util::codec::Decoder;
 
 use crate::util;
 
-fn name_of(n: usize, flavour: usize) -> Vec<u8> {
-    // letters, digits, dots and hyphens; flavour 1 mixes in multi-byte UTF-8 (only for the SOCKS5 door)
+fn ascii_name(n: usize, flavour: usize) -> Vec<u8> {
     let mut v: Vec<u8> = (0..n).map(|i| b"abcdefghijklmnopqrstuvwxyz0123456789-."[(i * 7 + flavour) % 38]).collect();
-    if flavour == 1 && n >= 4 {
-        v[n - 4..n - 2].copy_from_slice("é".as_bytes());
-        v[n - 2..].copy_from_slice("ü".as_bytes());
-    }
     if n > 0 && (v[n - 1] == b'.' || v[n - 1] == b'-') {
         v[n - 1] = b'z';
     }
@@ -35,6 +30,61 @@ fn name_of(n: usize, flavour: usize) -> Vec<u8> {
         v[0] = b'a';
     }
     v
+}
+
+/// A host name of exactly `n` BYTES of the given shape (see Address.tla).
+fn name_of(n: usize, shape: &str, flavour: usize) -> Vec<u8> {
+    match shape {
+        "utf8x2" | "utf8x3" => {
+            // well-formed multi-byte characters: fewer characters than bytes
+            let ch: &[&str] = if shape == "utf8x2" { &["é", "ü", "ø", "ж"] } else { &["日", "本", "語", "한"] };
+            let k = ch[0].len();
+            let mut v = Vec::with_capacity(n);
+            let mut i = flavour;
+            while v.len() + k <= n {
+                v.extend_from_slice(ch[i % ch.len()].as_bytes());
+                i += 1;
+            }
+            while v.len() < n {
+                v.push(b'a' + (v.len() % 26) as u8);
+            }
+            v
+        }
+        "latin1" => {
+            // bytes that are no well-formed UTF-8 (a lone continuation / start byte between ASCII letters)
+            let mut v = ascii_name(n, flavour);
+            for i in (1..n.saturating_sub(1)).step_by(5) {
+                v[i] = [0xe9u8, 0xfc, 0x80, 0xc3, 0xff][(i + flavour) % 5];
+            }
+            if n > 0 && n < 3 {
+                v[n - 1] = 0xe9; // a start byte with nothing behind it
+            }
+            v
+        }
+        _ => ascii_name(n, flavour),
+    }
+}
+
+fn v6_of(shape: &str) -> Vec<std::net::Ipv6Addr> {
+    let p = |s: &str| s.parse::<std::net::Ipv6Addr>().unwrap();
+    match shape {
+        "unspecified" => vec![p("::")],
+        "loopback" => vec![p("::1")],
+        "v4compat" => vec![p("::1.2.3.4"), p("::0.0.1.0"), p("::255.255.255.255")],
+        "v4mapped" => vec![p("::ffff:1.2.3.4"), p("::ffff:127.0.0.1"), p("::ffff:0.0.0.0")],
+        "linklocal" => vec![p("fe80::1"), p("fe80::aaaa:bbbb:cccc:dddd")],
+        "multicast" => vec![p("ff02::1"), p("ff0e::fb")],
+        _ => vec![p("2001:db8:1:2:3:4:5:6"), p("ffff:ffff:ffff:ffff:ffff:ffff:ffff:ffff"), p("64:ff9b::c000:221")],
+    }
+}
+
+fn v4_of(shape: &str) -> Vec<[u8; 4]> {
+    match shape {
+        "zero" => vec![[0, 0, 0, 0], [0, 0, 0, 1]],
+        "broadcast" => vec![[255, 255, 255, 255]],
+        "loopback" => vec![[127, 0, 0, 1], [127, 255, 255, 254]],
+        _ => vec![[192, 0, 2, 55], [10, 0, 0, 1], [1, 2, 3, 4]],
+    }
 }
 
 /// Present a target at the client's TCP door; returns what the real handshake made of it.
@@ -85,7 +135,7 @@ fn roundtrip(style: &str, addr: &Address, tail: &[u8]) -> String {
             }
             w.extend_from_slice(tail);
             match s5::decode(&mut w) {
-                Ok(d) if d == *addr && w[..] == *tail => "exact".to_owned(),
+                Ok(d) if d == *addr && bytes_of(&d) == bytes_of(addr) && w[..] == *tail => "exact".to_owned(),
                 Ok(d) => format!("altered: decoded {} (host {} bytes), {} bytes left instead of {}", d, host_len(&d), w.len(), tail.len()),
                 Err(e) => format!("altered: receiver cannot decode: {e}"),
             }
@@ -97,7 +147,7 @@ fn roundtrip(style: &str, addr: &Address, tail: &[u8]) -> String {
             w.extend_from_slice(tail);
             let mut b: Bytes = w.freeze();
             match vm::read_address_port(&mut b) {
-                Ok(d) if d == *addr && b[..] == *tail => "exact".to_owned(),
+                Ok(d) if d == *addr && bytes_of(&d) == bytes_of(addr) && b[..] == *tail => "exact".to_owned(),
                 Ok(d) => format!("altered: decoded {} (host {} bytes), {} bytes left instead of {}", d, host_len(&d), b.len(), tail.len()),
                 Err(e) => format!("altered: receiver cannot decode: {e}"),
             }
@@ -113,30 +163,43 @@ fn host_len(a: &Address) -> usize {
     }
 }
 
+fn bytes_of(a: &Address) -> (Vec<u8>, u16, &'static str) {
+    match a {
+        Address::Domain(h, p) => (h.as_bytes().to_vec(), *p, "domain"),
+        Address::Socket(std::net::SocketAddr::V4(x)) => (x.ip().octets().to_vec(), x.port(), "v4"),
+        Address::Socket(std::net::SocketAddr::V6(x)) => (x.ip().octets().to_vec(), x.port(), "v6"),
+    }
+}
+
 async fn run_case(sc: &Value, flavour: usize) -> Vec<Value> {
     let style = sc["style"].as_str().unwrap_or("socks5");
     let kind = sc["kind"].as_str().unwrap_or("domain");
+    let shape = sc["shape"].as_str().unwrap_or("ascii");
     let n = sc["n"].as_u64().unwrap_or(0) as usize;
     let tail: Vec<u8> = (0..sc["tail"].as_u64().unwrap_or(0)).map(|i| 0xE0 + i as u8).collect();
-    let port: u16 = [80u16, 443, 0, 65535, 8080][flavour % 5];
-    let mut doors: Vec<(&str, Result<Address, String>)> = Vec::new();
+    let port: u16 = [80u16, 443, 0, 65535, 8080, 1, 255, 256, 0x0d0a, 0xff00][flavour % 10];
+    // (door, what was asked for, what the door handed on)
+    let mut doors: Vec<(&str, (Vec<u8>, u16, &'static str), Result<Address, String>)> = Vec::new();
     match kind {
         "v4" => {
-            let (m, r) = socks5_request(1, &[192, 0, 2, 55], port);
-            doors.push(("socks5", door(m, r).await));
+            for ip in v4_of(shape) {
+                let (m, r) = socks5_request(1, &ip, port);
+                doors.push(("socks5", (ip.to_vec(), port, "v4"), door(m, r).await));
+            }
         }
         "v6" => {
-            let ip: std::net::Ipv6Addr = "2001:db8:1:2:3:4:5:6".parse().unwrap();
-            let (m, r) = socks5_request(4, &ip.octets(), port);
-            doors.push(("socks5", door(m, r).await));
+            for ip in v6_of(shape) {
+                let (m, r) = socks5_request(4, &ip.octets(), port);
+                doors.push(("socks5", (ip.octets().to_vec(), port, "v6"), door(m, r).await));
+            }
         }
         _ => {
+            let name = name_of(n, shape, flavour % 4);
             if n <= 255 {
-                let name = name_of(n, flavour % 2);
                 let mut body = vec![n as u8];
                 body.extend_from_slice(&name);
                 let (m, r) = socks5_request(3, &body, port);
-                doors.push(("socks5", door(m, r).await));
+                doors.push(("socks5", (name.clone(), port, "domain"), door(m, r).await));
                 // the local UDP door
                 let mut d = BytesMut::from(&[0u8, 0, 0, 3][..]);
                 d.extend_from_slice(&body);
@@ -148,37 +211,42 @@ async fn run_case(sc: &Value, flavour: usize) -> Vec<Value> {
                     Ok(Err(e)) => Err(e.to_string()),
                     Err(p) => Err(format!("PANIC {p}")),
                 };
-                doors.push(("socks5-udp", r));
+                doors.push(("socks5-udp", (name.clone(), port, "domain"), r));
             }
-            if n >= 1 && n <= 900 {
-                let name = String::from_utf8(name_of(n, 0)).unwrap();
-                let get = format!("GET http://{name}:{port}/x HTTP/1.1\r\nHost: {name}\r\n\r\n");
-                doors.push(("http", door(vec![get.into_bytes()], vec![0]).await));
-                let connect = format!("CONNECT {name}:{port} HTTP/1.1\r\nHost: {name}\r\n\r\n");
-                doors.push(("connect", door(vec![connect.into_bytes()], vec![0]).await));
-            } else if n > 900 {
-                let name = String::from_utf8(name_of(n, 0)).unwrap();
-                let get = format!("GET http://{name}/ HTTP/1.1\r\nHost: x\r\n\r\n");
-                doors.push(("http", door(vec![get.into_bytes()], vec![0]).await));
+            // the HTTP doors take text: well-formed UTF-8 only
+            if shape != "latin1" {
+                let text = String::from_utf8(name.clone()).unwrap();
+                if n >= 1 && n <= 900 {
+                    let mut get = format!("GET http://").into_bytes();
+                    get.extend_from_slice(text.as_bytes());
+                    get.extend_from_slice(format!(":{port}/x HTTP/1.1\r\nHost: h\r\n\r\n").as_bytes());
+                    doors.push(("http", (name.clone(), port, "domain"), door(vec![get], vec![0]).await));
+                    let connect = format!("CONNECT {text}:{port} HTTP/1.1\r\nHost: h\r\n\r\n");
+                    doors.push(("connect", (name.clone(), port, "domain"), door(vec![connect.into_bytes()], vec![0]).await));
+                } else if n > 900 {
+                    let get = format!("GET http://{text}/ HTTP/1.1\r\nHost: x\r\n\r\n");
+                    doors.push(("http", (name.clone(), 80, "domain"), door(vec![get.into_bytes()], vec![0]).await));
+                }
             }
         }
     }
     let mut out = Vec::new();
-    for (d, r) in doors {
+    for (d, asked, r) in doors {
         let outcome = match &r {
             Err(e) if e.starts_with("PANIC") => format!("panic: {e}"),
             Err(e) => format!("refused: {e}"),
             Ok(a) => {
-                // the door must hand on exactly what was asked for
-                if kind == "domain" && host_len(a) != n {
-                    format!("altered: the door turned a {n}-byte name into {a}")
+                // the door must hand on exactly what was asked for: kind, host bytes, port
+                let got = bytes_of(a);
+                if got != asked {
+                    format!("altered: the door turned {} {:02x?}:{} into {} {:02x?}:{}", asked.2, &asked.0[..asked.0.len().min(24)], asked.1, got.2, &got.0[..got.0.len().min(24)], got.1)
                 } else {
                     roundtrip(style, a, &tail)
                 }
             }
         };
         let class = outcome.split(':').next().unwrap_or("").to_owned();
-        out.push(json!({"door": d, "outcome": outcome.chars().take(200).collect::<String>(), "class": class}));
+        out.push(json!({"door": d, "outcome": outcome.chars().take(240).collect::<String>(), "class": class}));
     }
     out
 }
